@@ -221,9 +221,9 @@ func c09(c *an.Ctx) {
 					var pred an.AtomPred
 					if strings.HasSuffix(cn, ".minTime()") {
 						// tr.Min <= X  ⇔  !(X < tr.Min)
-						pred = an.AtomLike("^"+q+`<p0\.tr\.Min$`, false)
+						pred = an.AtomLike("^"+q+`<p0(\.tr)?\.Min$`, false)
 					} else {
-						pred = an.AtomLike(`^p0\.tr\.Max<`+q+"$", false)
+						pred = an.AtomLike(`^p0(\.tr)?\.Max<`+q+"$", false)
 					}
 					f.Guarded(r, one, fmt.Sprintf("tm = %s only where that bound was tested against the query range", cn), pred)
 				}
@@ -365,9 +365,9 @@ func c09(c *an.Ctx) {
 				one := &an.Sites{F: f, Desc: "return of the statistic", List: []an.Site{s}}
 				switch side {
 				case "min":
-					f.Guarded(r, one, "min statistic only when the range covers the segment's first row", an.AtomIs("p1.minTime()<p0.tr.Min", false))
+					f.Guarded(r, one, "min statistic only when the range covers the segment's first row", an.AtomLike(`^p1\.minTime\(\)<p0(\.tr)?\.Min$`, false))
 				case "max":
-					f.Guarded(r, one, "max statistic only when the range covers the segment's last row", an.AtomIs("p0.tr.Max<p1.maxTime()", false))
+					f.Guarded(r, one, "max statistic only when the range covers the segment's last row", an.AtomLike(`^p0(\.tr)?\.Max<p1\.maxTime\(\)$`, false))
 				default:
 					r.Fail(f.Name+": edge", c.P.Pos(rs.Pos()), "the statistic is returned without comparing its recorded time with the edge (minTime()/maxTime()) of the segment range the caller passed in (%s)", f.Canon(rs.Results[2]))
 				}
@@ -410,9 +410,9 @@ func c09loopExits(c *an.Ctx, r *an.Rule, f *an.Fn) int {
 			switch {
 			case strings.Contains(k, ".tr.Overlaps(") && !a.Pos:
 				return strings.Contains(k, "minTime()") && strings.Contains(k, "maxTime()") && strings.Index(k, "minTime()") < strings.Index(k, "maxTime()")
-			case regexp.MustCompile(`maxTime\(\)<p\d\.tr\.Min$`).MatchString(k) && a.Pos:
+			case regexp.MustCompile(`maxTime\(\)<p\d(\.tr)?\.Min$`).MatchString(k) && a.Pos:
 				return true
-			case regexp.MustCompile(`^p\d\.tr\.Max<.*minTime\(\)$`).MatchString(k) && a.Pos:
+			case regexp.MustCompile(`^p\d(\.tr)?\.Max<.*minTime\(\)$`).MatchString(k) && a.Pos:
 				return true
 			}
 			return false
